@@ -16,6 +16,7 @@ import (
 	"runtime/debug"
 	"sort"
 	"sync"
+	"time"
 
 	awsv1 "github.com/aws/aws-sdk-go/aws"
 	reqv1 "github.com/aws/aws-sdk-go/aws/request"
@@ -84,17 +85,19 @@ func arnOf(region string) string { return "arn:aws:kms:" + region + ":1111222233
 
 // world is the set of regional KMS endpoints seen by one plugin instance during one call.
 type world struct {
-	mu       sync.Mutex
-	rng      *rand.Rand
-	genUp    map[string]bool
-	encUp    map[string]bool
-	decUp    map[string]bool
-	genOrder []string
-	encCalls []string
-	decOrder []string
-	genOut   [][]byte // retained: Plaintext slices returned by GenerateDataKey
-	encIn    [][]byte // retained: Plaintext slices passed to Encrypt
-	decOut   [][]byte // retained: Plaintext slices returned by Decrypt
+	mu         sync.Mutex
+	rng        *rand.Rand
+	genUp      map[string]bool
+	encUp      map[string]bool
+	decUp      map[string]bool
+	stale      map[string]bool // regions whose Decrypt returns a wrong data key
+	cfgRegions map[string]bool // wrap side: region -> Encrypt/Generate available
+	genOrder   []string
+	encCalls   []string
+	decOrder   []string
+	genOut     [][]byte // retained: Plaintext slices returned by GenerateDataKey
+	encIn      [][]byte // retained: Plaintext slices passed to Encrypt
+	decOut     [][]byte // retained: Plaintext slices returned by Decrypt
 }
 
 func set(xs []string) map[string]bool {
@@ -153,6 +156,33 @@ func (w *world) encrypt(region, keyID string, plaintext []byte) ([]byte, error) 
 	return sealFor(region, plaintext), nil
 }
 
+// inFlight models a real client honouring its context: when some other region is down at wrap time, a healthy region's
+// Encrypt is still in flight for a moment; if the caller cancels meanwhile the request is abandoned.
+func (w *world) inFlight(ctx interface {
+	Done() <-chan struct{}
+	Err() error
+}, region string) error {
+	w.mu.Lock()
+	healthy := w.encUp[region]
+	anyDown := false
+	for r, up := range w.cfgRegions {
+		_ = r
+		if !up {
+			anyDown = true
+		}
+	}
+	w.mu.Unlock()
+	if !healthy || !anyDown || ctx == nil {
+		return nil
+	}
+	select {
+	case <-ctx.Done():
+		return ctx.Err()
+	case <-time.After(400 * time.Microsecond):
+		return nil
+	}
+}
+
 func (w *world) decrypt(region string, blob []byte) ([]byte, error) {
 	w.mu.Lock()
 	defer w.mu.Unlock()
@@ -163,6 +193,11 @@ func (w *world) decrypt(region string, blob []byte) ([]byte, error) {
 	p, ok := openFor(region, blob)
 	if !ok {
 		return nil, errors.New("fake kms: InvalidCiphertextException (blob was not produced by this region)")
+	}
+	if w.stale[region] {
+		// a stale key-encryption key: KMS answers, but with a data key that does not open the envelope
+		p = make([]byte, len(p))
+		w.rng.Read(p)
 	}
 	w.decOut = append(w.decOut, p)
 	return p, nil
@@ -193,7 +228,10 @@ func (c *clientV1) GenerateDataKeyWithContext(_ awsv1.Context, in *kmsv1.Generat
 	return &kmsv1.GenerateDataKeyOutput{KeyId: awsv1.String(arnOf(c.region)), Plaintext: p, CiphertextBlob: blob}, nil
 }
 
-func (c *clientV1) EncryptWithContext(_ awsv1.Context, in *kmsv1.EncryptInput, _ ...reqv1.Option) (*kmsv1.EncryptOutput, error) {
+func (c *clientV1) EncryptWithContext(ctx awsv1.Context, in *kmsv1.EncryptInput, _ ...reqv1.Option) (*kmsv1.EncryptOutput, error) {
+	if err := c.w.inFlight(ctx, c.region); err != nil {
+		return nil, err
+	}
 	blob, err := c.w.encrypt(c.region, awsv1.StringValue(in.KeyId), in.Plaintext)
 	if err != nil {
 		return nil, err
@@ -223,7 +261,10 @@ func (c *clientV2) GenerateDataKey(_ context.Context, in *kmsv2.GenerateDataKeyI
 	return &kmsv2.GenerateDataKeyOutput{KeyId: awsv2.String(arnOf(c.region)), Plaintext: p, CiphertextBlob: blob}, nil
 }
 
-func (c *clientV2) Encrypt(_ context.Context, in *kmsv2.EncryptInput, _ ...func(*kmsv2.Options)) (*kmsv2.EncryptOutput, error) {
+func (c *clientV2) Encrypt(ctx context.Context, in *kmsv2.EncryptInput, _ ...func(*kmsv2.Options)) (*kmsv2.EncryptOutput, error) {
+	if err := c.w.inFlight(ctx, c.region); err != nil {
+		return nil, err
+	}
 	blob, err := c.w.encrypt(c.region, awsv2.ToString(in.KeyId), in.Plaintext)
 	if err != nil {
 		return nil, err
@@ -299,6 +340,9 @@ func orEmpty(xs []string) []string {
 	return xs
 }
 
+// StaleFirst makes the preferred unwrap region answer with a wrong data key whenever a second region is available.
+var StaleFirst bool
+
 type outcome struct {
 	reset  Reset
 	wrap   WrapEv
@@ -317,7 +361,10 @@ func runCase(n int, c Case, seed int64) (o outcome) {
 	orig := append([]byte(nil), key...)
 
 	// ---- wrap
-	ww := &world{rng: rng, genUp: set(c.GenUp), encUp: set(c.EncUp), decUp: map[string]bool{}}
+	ww := &world{rng: rng, genUp: set(c.GenUp), encUp: set(c.EncUp), decUp: map[string]bool{}, cfgRegions: map[string]bool{}}
+	for _, r := range c.WCfg {
+		ww.cfgRegions[r] = ww.encUp[r]
+	}
 	o.wrap = WrapEv{E: "wrap", Run: n, Entries: []string{}, GenOrder: []string{}, EncCalls: []string{}}
 	var envelope []byte
 	func() {
@@ -355,7 +402,11 @@ func runCase(n int, c Case, seed int64) (o outcome) {
 	}
 
 	// ---- unwrap, by a separately constructed plugin instance (possibly the other SDK generation / other regions)
-	uw := &world{rng: rng, genUp: map[string]bool{}, encUp: map[string]bool{}, decUp: set(c.DecUp)}
+	uw := &world{rng: rng, genUp: map[string]bool{}, encUp: map[string]bool{}, decUp: set(c.DecUp), stale: map[string]bool{}}
+	if StaleFirst && len(c.DecUp) >= 2 {
+		// C10 variant: the unwrapping side's preferred region (tried first) holds a stale key-encryption key
+		uw.stale[c.UPref] = true
+	}
 	ue := &UnwrapEv{E: "unwrap", Run: n, Order: []string{}}
 	o.unwrap = ue
 	func() {
